@@ -1065,7 +1065,11 @@ def run_history(mach, cfg, init, start, evs, judge_ctor=True):
                 except Exception:  # noqa: BLE001
                     pass
             if not mach.representable(trial):
-                r.refused = True  # values the format cannot carry were refused (by the setter or by pack()): the history ends here
+                if ev[1] not in ("pack", "set_frame_len_in_header") and mach.representable(r.model):
+                    # the SETTER refused a value the format cannot carry: the assignment did not take place - the object goes on
+                    # as it was (model unchanged), and everything observed later is judged against that
+                    continue
+                r.refused = True  # pack() refused values the format cannot carry: the history ends here
                 return r
             r.fail = Fail("exception", ("pack-raises" if ev[1] == "pack" else f"{ev[1]}-raises"), repr(e), "accepted: the value is legal")
             return r
